@@ -10,11 +10,11 @@ import (
 
 	"verifharness/common"
 	_ "verifharness/engines/headerproof"
+	_ "verifharness/engines/history"
 	_ "verifharness/engines/lightclient"
 	_ "verifharness/engines/lookup"
 	_ "verifharness/engines/net"
 	_ "verifharness/engines/stateproof"
-	_ "verifharness/engines/history"
 	_ "verifharness/engines/store"
 	_ "verifharness/engines/table"
 )
